@@ -134,6 +134,12 @@ class Emitter:
             ax.append(f"(assert (=> (= {base} 1.0) (= {s} 1.0)))")
         elif kind == "exp":
             ax.append(f"(assert (> {s} 0.0))")
+        elif kind == "ceil":
+            a = self.need_v(args[0])
+            ax.append(f"(assert (and (>= {s} {a}) (< {s} (+ {a} 1.0))))")
+        elif kind == "floor":
+            a = self.need_v(args[0])
+            ax.append(f"(assert (and (<= {s} {a}) (> {s} (- {a} 1.0))))")
         for a in args:
             if isinstance(a, V):
                 self.need_node(a.n)
